@@ -404,6 +404,25 @@ class Formatter:
         self.un_text = {}
         self.bin_text = {}
         for table, fn, ops, adt in ((self.un_text, self.unop_fn, self.un, "UnaryOp"), (self.bin_text, self.binop_fn, self.bi, "BinOp")):
+            # the spelling function read as a table (one evaluation per operator); its match arms are the fallback
+            got = {}
+            try:
+                ip = I.Interp(self.facts, max_depth=4)
+                for op in ops:
+                    buf = {"s": ""}
+                    params = fn.get("params") or []
+                    r = ip.apply(fn, [I.Enum(adt, op)] + [I.Ref(buf, "s") if "String" in (p_.get("ty") or "") else I.Opaque("arg") for p_ in params[1:]])
+                    r = r.get() if isinstance(r, I.Ref) else r
+                    if isinstance(r, I.Enum) and r.variant == "Ok" and buf["s"]:
+                        r = buf["s"]            # (the function writes the spelling into the output it is handed)
+                    if not isinstance(r, str):
+                        raise I.Unknown("spelling of %s is %r" % (op, r))
+                    got[op] = r
+            except I.Unknown:
+                got = None
+            if got:
+                table.update(got)
+                continue
             ms = F.find_matches(fn, adt)
             if len(ms) != 1:
                 raise Missing("the match over %s in %s" % (adt, fn["name"]))
